@@ -95,6 +95,7 @@ func (s *Sim) runW2() {
 	// sandbox with sentinels around the receiver's roots (C14)
 	s.makeSandbox()
 	s.installW2Oracles()
+	s.installC20()
 	s.bootReceiver(filepath.Join(s.ws, "sandbox", "r0"), 0)
 	s.armNextRecvCrash()
 	s.extraEvents = func() []event {
@@ -111,7 +112,7 @@ func (s *Sim) runW2() {
 		if s.recv == nil && op.Kind != "wait" {
 			return nil
 		}
-		if op.Label == "unauth" || op.Label == "probe" {
+		if op.Label == "unauth" || op.Label == "probe" || op.Kind == "settle" {
 			// judged in isolation: the receiver must be idle
 			s.mu.Lock()
 			np := len(s.parked)
@@ -219,6 +220,8 @@ func (s *Sim) issuePeerOp(st *w2state) {
 		}
 		s.w2BeforeClean(op)
 		track(s.peerDo(tag, "PUT", url, nil, nil, func(pc *peerCall) { done(pc); s.w2AfterClean(op) }))
+	case "settle":
+		// nothing to do: it only becomes enabled once the receiver is idle
 	case "wait":
 		s.addEnv(&envAction{Kind: "noop", At: time.Since(s.epoch) + op.Dur})
 	case "crash":
